@@ -183,7 +183,25 @@ def targeted():
         yield gen.case('TGT:complement', [0b01 if i % 2 else 0b10 for i in range(n)], 2, gen.SCHEMES[k % 5]); k += 1
 
 
+def wideprops(tier, seed):
+    """520-700 contingent properties over 8-16 objects, one of them with no property at all."""
+    import random as _r
+    rng = _r.Random(f'{seed}/wideprops')
+    for k in range(2 if tier == 'quick' else 10):
+        n, m = rng.randint(8, 16), rng.randint(520, 700)
+        rows = [rng.getrandbits(m) for _ in range(n)]
+        rows[rng.randrange(n)] = 0
+        if k % 2:
+            half = [i for i in range(n) if rows[i]]
+            a, b = 1, 2           # two disjoint properties covering every object that has any property
+            for i in half:
+                rows[i] &= ~3
+                rows[i] |= (1 if half.index(i) % 2 else 2)
+        yield gen.case('WIDEPROPS', rows, m, 'plain')
+
+
 def cases(tier, seed, spec):
+    yield from wideprops(tier, seed)
     yield from targeted()
     # thousands of objects, a handful of properties (the wide shape would give millions of pairs)
     yield from (c for c in gen.huge(seed, 8 if tier == 'quick' else 48) if len(c['properties']) < 50)
